@@ -31,6 +31,20 @@ def _env(extra_flags=""):
     return e
 
 
+def source_hash():
+    h = hashlib.sha1()
+    files = [os.path.join(REPO, "Cargo.toml"), os.path.join(REPO, "Cargo.lock")]
+    for root, _dirs, names in os.walk(os.path.join(REPO, "src")):
+        files += [os.path.join(root, n) for n in names]
+    for p in sorted(files):
+        try:
+            with open(p, "rb") as f:
+                h.update(p.encode() + b"\0" + f.read() + b"\0")
+        except OSError:
+            pass
+    return h.hexdigest()
+
+
 def binary_path(profile="debug"):
     tag = hashlib.sha1(os.path.abspath(REPO).encode()).hexdigest()[:10]
     return os.path.join(TARGET, "bin", "%s-%s" % (tag, profile), "masscanned")
@@ -52,6 +66,18 @@ def binary(profile="debug", quiet=True):
     lock = open(os.path.join(TARGET, ".verif-build.lock"), "w")
     fcntl.flock(lock, fcntl.LOCK_EX)
     try:
+        # cargo decides freshness by mtime; guard against anomalies (restored files with old mtimes, a target
+        # directory last used for different contents) with a content hash of the sources: if it differs from the
+        # one recorded at the last successful build of this profile, the crate's fingerprint is dropped
+        cur = source_hash()
+        stamp = os.path.join(outdir, "sources.sha1")
+        prev = open(stamp).read().strip() if os.path.exists(stamp) else None
+        if prev != cur:
+            fdir = os.path.join(tdir, "release" if profile == "release" else "debug", ".fingerprint")
+            if os.path.isdir(fdir):
+                for n in os.listdir(fdir):
+                    if n.startswith("masscanned-"):
+                        shutil.rmtree(os.path.join(fdir, n), ignore_errors=True)
         cmd = ["cargo", "build", "--offline", "--manifest-path", os.path.join(REPO, "Cargo.toml"),
                "--target-dir", tdir]
         if profile == "release":
@@ -66,6 +92,8 @@ def binary(profile="debug", quiet=True):
         tmp = out + ".tmp.%d" % os.getpid()
         shutil.copy2(src, tmp)
         os.replace(tmp, out)
+        with open(stamp, "w") as f:
+            f.write(cur)
         if not quiet:
             print("built %s in %.1fs" % (profile, time.time() - t0))
     finally:
